@@ -213,6 +213,20 @@ package badger
 //@   assert[settings] before return#2 : result != nil && result.readTs == txn.readTs && result.reversed == reversed
 //@   assert[none-when-readonly] before return#1 : result == nil && (!txn.update || len(txn.pendingWrites) == 0)
 
+// NewIterator merges, in this order of precedence, the transaction's own pending writes, the
+// memtables newest first and the levels, all in the requested direction, and reads at the
+// transaction's read timestamp.
+//@ func (*Txn).NewIterator
+//@   props C04 C01 C05
+//@   light
+//@   assert[pending-direction] before call newPendingWritesIterator : arg0 == txn && arg1 == opt.Reverse
+//@   assert[pending-first] before call append#1 : len(arg0) == 0
+//@   assert[memtable-direction] before call NewUniIterator : arg0 == tables[i].sl && arg1 == opt.Reverse
+//@   loop 1 invariant[memtables-in-order] 0 <= i && i <= len(tables) && (len(iters) == i || len(iters) == i + 1)
+//@   assert[levels-last] before call appendIterators : arg1 == iters && i == len(tables)
+//@   assert[merged-as-collected] before call NewMergeIterator : arg0 == ret(appendIterators#1) && arg1 == opt.Reverse
+//@   assert[snapshot] before return : result != nil && result.txn == txn && result.readTs == txn.readTs && result.iitr == ret(NewMergeIterator#1) && result.opt.Reverse == opt.Reverse && result.opt.AllVersions == opt.AllVersions && result.opt.SinceTs == opt.SinceTs && result.opt.InternalAccess == opt.InternalAccess && result.opt.Prefix == opt.Prefix
+
 // ---- timestamp oracle (C02, C03, C34, C36) ----
 
 //@ func (*oracle).readTs
